@@ -16,7 +16,7 @@ use crate::{
 use pyo3::prelude::*;
 use socket2::{Domain, Protocol, Socket, Type};
 use std::net::SocketAddr;
-use std::time::Duration;
+use std::time::{Duration, Instant};
 
 pub(crate) trait SnmpSocket
 where
@@ -127,6 +127,27 @@ where
         T: PyOp<'a, V>,
         V: 'a,
     {
+        // The timeout covers the whole wait for the reply, not each datagram:
+        // unwanted datagrams must not restart the clock.
+        let timeout = self.get_io().read_timeout().ok().flatten();
+        let deadline = timeout.map(|t| Instant::now() + t);
+        let r = self._recv_until::<T, V>(iter, deadline);
+        if timeout.is_some() {
+            // Restore the configured timeout for the next request
+            let _ = self.get_io().set_read_timeout(timeout);
+        }
+        r
+    }
+
+    fn _recv_until<'a, T, V>(
+        &mut self,
+        iter: Option<&mut GetIter>,
+        deadline: Option<Instant>,
+    ) -> PyResult<PyObject>
+    where
+        T: PyOp<'a, V>,
+        V: 'a,
+    {
         // Get buffer from pool
         let mut h = get_buffer_pool().acquire();
         let buf = h.as_mut();
@@ -135,6 +156,15 @@ where
             // Nested scope to release io early after receiving message
             let msg = {
                 let io = self.get_io();
+                if let Some(d) = deadline {
+                    // Wait for the rest of the time only
+                    let left = d.saturating_duration_since(Instant::now());
+                    if left.is_zero() {
+                        return Err(SnmpError::WouldBlock.into());
+                    }
+                    io.set_read_timeout(Some(left))
+                        .map_err(|e| SnmpError::SocketError(e.to_string()))?;
+                }
                 let data = Self::recv_socket(io, buf)?;
                 // Decode message
                 Self::Message::try_from(data)?
